@@ -211,6 +211,7 @@ def run_shard(spec):
             base = {"target": tkind, "op": opk, "key_class": kclass, "wrappers": "+".join(dv.wrappers) or "bare",
                     "layers": str(min(len(dv.layers), 3)),
                     "after_attrpath_root_op": "yes" if tainted else "no"}
+            base["doc_mixed"] = "yes" if A.doc_has_mixed(dv) else "no"
             if kclass == "attrpath-root" and opk in ("set", "del"):
                 tainted = True
             case = {"initial": text, "history": [list(h) for h in hist]}
